@@ -547,7 +547,7 @@ class Exec:
                 return VReal(-v.t)
             return VInt(-as_int(v))
         if isinstance(node.op, ast.Invert):
-            return VInt(-as_int(v) - 1)       # Python: ~x == -x-1 exactly
+            return VInt(TH.bnot(as_int(v)))   # Python: ~x == -x-1 exactly (axiom on bnot; keeps arithmetic out of triggers)
         if isinstance(node.op, ast.UAdd):
             return v
         raise Unsupported("unary op")
@@ -682,7 +682,11 @@ class Exec:
             return VInt(x / y)
         if isinstance(op, ast.Mod):
             self.oblige(st, f"L{self.cur_line}.modulus_positive", y > 0)
-            return VInt(x % y)
+            if z3.is_int_value(z3.simplify(y)):
+                return VInt(x % y)
+            # symbolic modulus: an uninterpreted function with the range axiom  m > 0 => 0 <= pmod(x, m) < m
+            # (all the proofs use of `x % m`); keeps nonlinear integer arithmetic out of the queries
+            return VInt(TH.pmod(x, y))
         if isinstance(op, ast.LShift):
             self.oblige(st, f"L{self.cur_line}.shift_nonneg", y >= 0)
             return VInt(_mul(x, _pow2(y)))
@@ -814,9 +818,11 @@ class Exec:
     def contains(self, st, container, item):
         if isinstance(container, VSeq):
             if isinstance(container.et, TInt):
+                from . import tables, lib_models
                 x = as_int(item)
-                i = z3.Int(fresh_name("m"))
-                return z3.Exists([i], z3.And(0 <= i, i < container.ln, container.comps[0][i] == x))
+                container = lib_models.named_array(self, st, container)
+                self.lib_used.add("`x in list` = (number of occurrences of x in the list >= 1)  (T-occ, pyvc/tables.py)")
+                return tables.lcnt(container.comps[0], z3.IntVal(0), container.ln, x) >= 1
             raise Unsupported("`in` on a sequence of non-ints")
         if isinstance(container, VMap):
             return container.dom[item.t]
@@ -1049,6 +1055,9 @@ class Exec:
 
     def seq_elem_value(self, st, seq, j, loc):
         v = self.seq_get(seq, j)
+        if isinstance(v, VStruct) and not self.spec:
+            # typing facts of the element (also puts ground terms about it into the solver's term bank)
+            st.pc += [f for f in self.flat.facts(seq.et, v) if not z3.is_quantifier(f)]
         if isinstance(v, VStruct) and loc is not None:
             key = self.epoch_key(loc)
             return VRef(("elem", loc, j), v.cls, (key, st.epochs.get(key, 0)))
